@@ -9,7 +9,7 @@ if _counter:
 if __name__ == "__main__":
     import json, signal, multiprocessing as mp
     from multiprocessing.connection import wait
-    signal.alarm(1500)
+    signal.alarm(7000)
     inp, outp, scratch = sys.argv[1], sys.argv[2], sys.argv[3]
     from loky.backend.process import LokyProcess, LokyInitMainProcess
     from engine.real.spawn_child import report
@@ -20,7 +20,7 @@ if __name__ == "__main__":
     for line in open(inp):
         v = json.loads(line)
         n += 1
-        _, fds, ov, end, method, exp_env, exp_code, exp_runs = v
+        _, fds, ov, end, method, exp_env, exp_code, exp_runs = v[:8]
         opened = []
         why = None
         try:
